@@ -352,3 +352,116 @@ theorem fins_eq_close (P : Nat) (s : St) (f : Fin) (fs : List Fin) :
 
 end Writer
 end Cardutil
+
+namespace Cardutil.Vbs
+
+/-! ### the IPM reader over a plain stream (C06, C10) -/
+
+theorem ipmReadAll_succ {σ α} (S : Src σ) (ml : Nat) (dec : Bytes → Outcome α) (fuel : Nat) (st : RState σ) :
+    ipmReadAll S ml dec (fuel + 1) st =
+      match next S ml st with
+      | .done e => ([], e)
+      | .record r st' =>
+        match dec r with
+        | .ok d => (d :: (ipmReadAll S ml dec fuel st').1, (ipmReadAll S ml dec fuel st').2)
+        | .dataError => ([], .dataError st.recno ((st'.last).getD []))
+        | .escape k => ([], .escape k)
+        | .diverge => ([], .diverge) := rfl
+
+/-- all records decode: the messages come back in order, then end of data -/
+theorem ipmReadAll_vbs {α} {ml : Nat} (h32 : ml < lim32) (dec : Bytes → Outcome α) (val : Bytes → α)
+    (recs : List Bytes) (tail : Bytes)
+    (h : ∀ r ∈ recs, 0 < r.length ∧ r.length ≤ ml ∧ dec r = .ok (val r)) (fuel k : Nat) (l : Option Bytes)
+    (hf : recs.length < fuel) :
+    ipmReadAll plainSrc ml dec fuel ⟨vbsBytes recs ++ (be32 0 ++ tail), k, l⟩ = (recs.map val, .eof) := by
+  induction recs generalizing fuel k l with
+  | nil =>
+    cases fuel with
+    | zero => omega
+    | succ f => rw [ipmReadAll_succ, vbsBytes_nil, List.nil_append, next_zero]; rfl
+  | cons r rs ih =>
+    cases fuel with
+    | zero => omega
+    | succ f =>
+      obtain ⟨h0, hml, hd⟩ := h r (by simp)
+      rw [ipmReadAll_succ, vbsBytes_cons, List.append_assoc, List.append_assoc, next_record h0 hml h32]
+      simp only [hd]
+      rw [ih (fun x hx => h x (by simp [hx])) f (k + 1) _ (by simpa using hf)]
+      rfl
+
+/-- the k-th record does not decode: records before it are delivered, then the library error with
+    the number of THAT record and its raw bytes including the length prefix -/
+theorem ipmReadAll_bad {α} {ml : Nat} (h32 : ml < lim32) (dec : Bytes → Outcome α) (val : Bytes → α)
+    (good : List Bytes) (bad : Bytes) (rest : Bytes)
+    (h : ∀ r ∈ good, 0 < r.length ∧ r.length ≤ ml ∧ dec r = .ok (val r))
+    (hb0 : 0 < bad.length) (hbl : bad.length ≤ ml) (hbad : dec bad = .dataError)
+    (fuel k : Nat) (l : Option Bytes) (hf : good.length < fuel) :
+    ipmReadAll plainSrc ml dec fuel ⟨vbsBytes good ++ (be32 bad.length ++ (bad ++ rest)), k, l⟩ =
+      (good.map val, .dataError (k + good.length) (be32 bad.length ++ bad)) := by
+  induction good generalizing fuel k l with
+  | nil =>
+    cases fuel with
+    | zero => omega
+    | succ f =>
+      rw [ipmReadAll_succ, vbsBytes_nil, List.nil_append, next_record hb0 hbl h32]
+      simp [hbad]
+  | cons r rs ih =>
+    cases fuel with
+    | zero => omega
+    | succ f =>
+      obtain ⟨h0, hml, hd⟩ := h r (by simp)
+      rw [ipmReadAll_succ, vbsBytes_cons, List.append_assoc, List.append_assoc, next_record h0 hml h32]
+      simp only [hd]
+      rw [ih (fun x hx => h x (by simp [hx])) f (k + 1) _ (by simpa using hf)]
+      simp only [List.map_cons, List.length_cons]
+      congr 2; omega
+
+/-- framing-level fault in record k (oversized declared length): number k, the four length bytes -/
+theorem ipmReadAll_oversized {α} {ml : Nat} (h32 : ml < lim32) (dec : Bytes → Outcome α) (val : Bytes → α)
+    (good : List Bytes) (n : Nat) (rest : Bytes)
+    (h : ∀ r ∈ good, 0 < r.length ∧ r.length ≤ ml ∧ dec r = .ok (val r))
+    (hn : ml < n) (hn32 : n < lim32)
+    (fuel k : Nat) (l : Option Bytes) (hf : good.length < fuel) :
+    ipmReadAll plainSrc ml dec fuel ⟨vbsBytes good ++ (be32 n ++ rest), k, l⟩ =
+      (good.map val, .dataError (k + good.length) (be32 n)) := by
+  induction good generalizing fuel k l with
+  | nil =>
+    cases fuel with
+    | zero => omega
+    | succ f => rw [ipmReadAll_succ, vbsBytes_nil, List.nil_append, next_oversized hn hn32]; rfl
+  | cons r rs ih =>
+    cases fuel with
+    | zero => omega
+    | succ f =>
+      obtain ⟨h0, hml, hd⟩ := h r (by simp)
+      rw [ipmReadAll_succ, vbsBytes_cons, List.append_assoc, List.append_assoc, next_record h0 hml h32]
+      simp only [hd]
+      rw [ih (fun x hx => h x (by simp [hx])) f (k + 1) _ (by simpa using hf)]
+      simp only [List.map_cons, List.length_cons]
+      congr 2; omega
+
+/-- framing-level fault in record k (record cut short): number k, length bytes + what could be read -/
+theorem ipmReadAll_truncated {α} {ml : Nat} (h32 : ml < lim32) (dec : Bytes → Outcome α) (val : Bytes → α)
+    (good : List Bytes) (bad : Bytes) (n : Nat)
+    (h : ∀ r ∈ good, 0 < r.length ∧ r.length ≤ ml ∧ dec r = .ok (val r))
+    (hbl : bad.length ≤ ml) (hn : n < bad.length)
+    (fuel k : Nat) (l : Option Bytes) (hf : good.length < fuel) :
+    ipmReadAll plainSrc ml dec fuel ⟨vbsBytes good ++ (be32 bad.length ++ bad.take n), k, l⟩ =
+      (good.map val, .dataError (k + good.length) (be32 bad.length ++ bad.take n)) := by
+  induction good generalizing fuel k l with
+  | nil =>
+    cases fuel with
+    | zero => omega
+    | succ f => rw [ipmReadAll_succ, vbsBytes_nil, List.nil_append, next_truncated hbl h32 hn]; rfl
+  | cons r rs ih =>
+    cases fuel with
+    | zero => omega
+    | succ f =>
+      obtain ⟨h0, hml, hd⟩ := h r (by simp)
+      rw [ipmReadAll_succ, vbsBytes_cons, List.append_assoc, List.append_assoc, next_record h0 hml h32]
+      simp only [hd]
+      rw [ih (fun x hx => h x (by simp [hx])) f (k + 1) _ (by simpa using hf)]
+      simp only [List.map_cons, List.length_cons]
+      congr 2; omega
+
+end Cardutil.Vbs
